@@ -59,3 +59,5 @@ run "bf22a46 environment entries" C08 -- bf22a46
 run "a3599b9 interpolated markers" C07 -- a3599b9
 run "306671e yaml separators" C04 -- 306671e
 run "38477fe bkld empty toml layer" C15 -- 38477fe
+run "d8b25ca yaml alias as key" C04 -- d8b25ca
+run "1ee3d64 yaml infinite floats" C14 -- 1ee3d64
